@@ -301,6 +301,15 @@ def verify_function(eng, ceval, fname, variant="", overrides=None, args=None, se
     if c is not None:
         for r in c.requires:
             st.assume(ceval.holds(r, env, st, st))
+    # representation invariant of the receiver's type (typeinv clauses): assumed on entry of every method
+    tinv = (ceval.defs.get("$typeinv") or {}) if isinstance(ceval.defs, dict) else {}
+    if tinv and f.d.get("hasrecv") and f.params and args:
+        m = re.match(r"(\(\*[^)]+\))\.", f.name)
+        for ast in (tinv.get(m.group(1)) if m else None) or []:
+            try:
+                st.assume(ceval.ev.as_bool(ceval.ev.eval(ast, {"self": TV(args[0], ceval.ev.ty_of(f.params[0]["t"]), None)}, st, st)))
+            except SpecError:
+                pass
     for r in extra_requires:
         st.assume(r(w, st, args) if callable(r) else r)
     res.covers.append((label + "#cover:requires", st.pcond()))
@@ -339,6 +348,15 @@ def verify_function(eng, ceval, fname, variant="", overrides=None, args=None, se
                                {"clause": en.text, "detail": "contract clause cannot be evaluated on this tree: %s" % ex})
                     continue
                 eng.oblige(s.fork(), "ensures", "%s" % (en.label or i), z3.Not(cond), {"clause": en.text, "result": v})
+        # ... and re-established on every normal return (the other half of the object-invariant methodology)
+        if tinv and f.d.get("hasrecv") and f.params and args:
+            m = re.match(r"(\(\*[^)]+\))\.", f.name)
+            for ast in (tinv.get(m.group(1)) if m else None) or []:
+                try:
+                    ok = ceval.ev.as_bool(ceval.ev.eval(ast, {"self": TV(args[0], ceval.ev.ty_of(f.params[0]["t"]), None)}, s, s))
+                except SpecError:
+                    continue
+                eng.oblige(s.fork(), "ensures", "typeinv", z3.Not(ok), {"clause": "type invariant of the receiver"})
         if lvs is not None and check_frame:
             frame_obligations(eng, ceval, pre, s.fork(), lvs, "", names=w.objname)
     for t in eng.terminals:
